@@ -275,6 +275,11 @@ func (ex *Exec) protoMethod(recv iface, name string) *modelClosure {
 		switch name {
 		case "Name":
 			return mk(func(ex *Exec, fr *frame, pos token.Pos, args []value) value { return ex.strConst(protoDescName(d.st)) })
+		case "FullName":
+			// google.fhir.r4.core.<Outer>.<Inner>: the generated Go name with '_' for '.'
+			return mk(func(ex *Exec, fr *frame, pos token.Pos, args []value) value {
+				return ex.strConst("google.fhir.r4.core." + strings.ReplaceAll(d.st.Obj().Name(), "_", "."))
+			})
 		case "Parent":
 			// a generated Go type Outer_Inner is the message Inner declared inside Outer
 			return mk(func(ex *Exec, fr *frame, pos token.Pos, args []value) value {
